@@ -151,7 +151,14 @@ class FieldsWorld(World):
             items.append({"t": "ref", "to": rng.choice(colls)})
         if k < 75:
             # any non-empty string is a legal field name (reserved gaps are often `_rsvd0`)
-            style = rng.choice(["f{}", "f{}", "f{}", "_f{}", "_rsvd{}", "f{}_", "F{}", "__f{}"])
+            style = rng.choice(["f{}", "f{}", "f{}", "_f{}", "_rsvd{}", "f{}_", "F{}", "__f{}", None])
+            if style is None:
+                # ordinary words that happen to be method names of Python mappings / of the
+                # collection classes are legal field names too
+                words = ["items", "flatten", "keys", "values", "get", "count", "index", "access"]
+                off = rng.below(len(words))
+                return {"t": "dict", "items": [[words[(off + i) % len(words)], it]
+                                               for i, it in enumerate(items)]}
             return {"t": "dict", "items": [[style.format(i), it] for i, it in enumerate(items)]}
         return {"t": "list", "items": items}
 
